@@ -258,5 +258,25 @@ func (e *Engine) Discharge(obls []*Obligation, opt SolveOpts) error {
 	}
 	close(ch)
 	wg.Wait()
+	// second chance for timeouts (a loaded machine must not turn into an alarm): the undecided obligations are
+	// re-run one at a time with three times the limit. A `sat` answer is never retried.
+	for _, j := range jobs {
+		o := j.o
+		if o.Status != "unknown" || o.Expect == "sat" {
+			continue
+		}
+		r := race(j.file, opt.TimeoutS*3, false)
+		if r.verdict == "unsat" {
+			o.Status, o.Solver, o.Seconds, o.Output = "discharged", r.solver+"/retry", r.secs, r.output
+			continue
+		}
+		for _, fs := range j.slices {
+			rs := race(fs, opt.TimeoutS, false)
+			if rs.verdict == "unsat" {
+				o.Status, o.Solver, o.Seconds, o.Output = "discharged", rs.solver+"/sliced-retry", rs.secs, rs.output
+				break
+			}
+		}
+	}
 	return nil
 }
